@@ -1101,12 +1101,19 @@ class Authenticated(BaseClientHandler):
                 if attrs & SPECIAL_USE_ATTR_VALUES
             ]
 
-        # Build a set of all returned folder names so we can verify
+        # Build a set of all the folder names so we can verify
         # \HasChildren / \HasNoChildren correctness.
         #
-        all_names = {name for name, _, _ in results}
+        # NOTE: It has to be all the folders there are, not just the ones
+        #       being returned: 'LIST "" %' returns a parent without returning
+        #       its children.
+        #
+        all_names = set()
+        async for (name,) in self.server.db.query("SELECT name FROM mailboxes"):
+            all_names.add(name)
         for mbox_name, attributes, child_info in results:
-            has_children = any(n.startswith(mbox_name + "/") for n in all_names)
+            db_name = "inbox" if mbox_name == "INBOX" else mbox_name
+            has_children = any(n.startswith(db_name + "/") for n in all_names)
             if has_children:
                 attributes.discard(r"\HasNoChildren")
                 attributes.add(r"\HasChildren")
